@@ -241,4 +241,48 @@ example : F2Prog exF2 := by decide
 example : ¬ F1Prog exF2 := by decide
 example : compiles exF2 = true := by decide
 
+/-! ### fragment F3: F2 + switch / case / default / break -/
+
+/-- F3 programs: as F2, and `switch (op) { case …: … default: … }` with `break`, fall-through from one case block into the next,
+several cases (and the default) sharing a block, `CaseValue` under `SwitchScenario`; nested in any way with ifs and loops
+(`cgStmts 3`).  Not in F3: a switch without cases, a header op that ends the routine, more than one default, a case block that
+consists of a single `break` / `continue` / `break_loop` (`_process_block` may fold such a block into the case's header
+jump). -/
+def F3Prog (p : Program) : Prop := CgProg 3 p
+
+instance (p : Program) : Decidable (F3Prog p) := by unfold F3Prog; infer_instance
+
+/-- **The code generator is correct on F3**: source semantics of every routine ≈ labelled code of the front end. -/
+theorem codegen_correct_F3 (p : Program) (t : Tables) (hp : F3Prog p) (hf : frontend p = .ok t) (j : Nat) (r : Routine)
+    (hj : p.routines[j]? = some r) :
+    ∃ e, (toSrc p).graph.entries[j]? = some (some e) ∧
+      Equivalent (toSrc p).graph.lts (labLTS t.ops) e (labEntry t.ops j) :=
+  codegen_correct_level 3 p t hp hf j r hj
+
+/-- **The compiler is correct on F3**, end to end: source semantics of every routine ≈ SSB machine on the compiled ops. -/
+theorem compile_correct_F3 (p : Program) (res : Result) (hp : F3Prog p) (h : compile p = .ok res) (j : Nat) (r : Routine)
+    (hj : p.routines[j]? = some r) :
+    ∃ e, (toSrc p).graph.entries[j]? = some (some e) ∧
+      Equivalent (toSrc p).graph.lts (Machine.lts ⟨flatten (conv res.ops)⟩) e (Machine.entry ⟨flatten (conv res.ops)⟩ j) :=
+  compile_correct_level 3 p res hp h j r hj
+
+/-- non-vacuity: `def 0 { while (Branch 9) { switch (sw(7)) { case CaseValue 1: case CaseValue 2: a(); default: b(); break;
+case CaseValue 3: if (Branch 4) { continue; } c(); case CaseValue 5: d(); break_loop; } e(); } f(); }` -/
+def exF3 : Program :=
+  ⟨[], [], [⟨some 0, "r0", none,
+    .cons (.while_ false ⟨false, "Branch", [.int 9]⟩
+      (.cons (.switch ⟨true, "sw", [.int 7]⟩
+        (.cons false "CaseValue" [.int 1] .nil
+        (.cons false "CaseValue" [.int 2] (.cons (.op "a" []) .nil)
+        (.cons true "" [] (.cons (.op "b" []) (.cons .brk .nil))
+        (.cons false "CaseValue" [.int 3]
+          (.cons (.ite false [⟨false, "Branch", [.int 4]⟩] (.cons .cont .nil) .nil false .nil) (.cons (.op "c" []) .nil))
+        (.cons false "CaseValue" [.int 5] (.cons (.op "d" []) (.cons .brkLoop .nil)) .nil))))))
+      (.cons (.op "e" []) .nil)))
+    (.cons (.op "f" []) .nil)⟩]⟩
+
+example : F3Prog exF3 := by decide
+example : ¬ F2Prog exF3 := by decide
+example : compiles exF3 = true := by decide
+
 end ESV.C01Frontend
